@@ -9,6 +9,10 @@ _lk = open("/tmp/verif_repo.lock", "w"); fcntl.flock(_lk, fcntl.LOCK_EX)
 src = open(p).read()
 if src.count(old) != 1:
     sys.exit(f"pattern occurs {src.count(old)} times")
+import glob, shutil, tempfile
+_keep = tempfile.mkdtemp(prefix="verif_ev_"); _ev = glob.glob(f"/verif/evidence/{pid}.*")
+for f in _ev:
+    shutil.copy2(f, _keep)
 open(p, "w").write(src.replace(old, new))
 try:
     r = subprocess.run(["./check", pid], cwd="/verif", capture_output=True, text=True, env=dict(os.environ, VERIF_LOCK_HELD="1"))
@@ -16,4 +20,7 @@ try:
     print("rc =", r.returncode)
 finally:
     open(p, "w").write(src)
+    for f in _ev:
+        shutil.copy2(os.path.join(_keep, os.path.basename(f)), f)
+    shutil.rmtree(_keep, ignore_errors=True)
     subprocess.run(["git", "-C", "/repo", "status", "--short"])
